@@ -549,3 +549,88 @@ Proof.
                       [mklinst true [Some (1 # 1, 2 # 1)]; mklinst true [Some (3 # 1, 2 # 1)]]], 0%nat.
   vm_compute. discriminate.
 Qed.
+
+(* ------------------------------- SingleInstanceDataset, both variants (C18 F181) -- *)
+
+Lemma single_sample_unfixed_l : forall uo s frames k,
+  single_sample false uo s frames k = frame_sample uo s frames k.
+Proof. reflexivity. Qed.
+
+(* frame_sample_rows for ANY padding width: the label rows and the padding do not depend on it *)
+Lemma frame_sample_m_rows_l : forall maxi uo s frames k rows n,
+  frame_sample_m maxi uo s frames k = Some (rows, n) ->
+  exists f, nth_error (lf_idx_list (ds_frames uo frames)) k = Some f /\ (f < length frames)%nat /\
+    let labs := filter nonempty (considered uo (nth f frames [])) in
+    n = length labs /\ (0 < n)%nat /\
+    (forall j lab, nth_error labs j = Some lab -> nth_error rows j = Some (map (scale_kp s) lab)) /\
+    (forall j row, (n <= j)%nat -> nth_error rows j = Some row -> all_missing row = true).
+Proof.
+  intros maxi uo s frames k rows n H. unfold frame_sample_m in H.
+  destruct (nth_error (lf_idx_list (ds_frames uo frames)) k) as [f|] eqn:E; [|discriminate].
+  cbv zeta in H.
+  assert (Hr : scale_rows s (fst (process_lf uo maxi (rebind uo (nth f frames [])))) = rows) by congruence.
+  assert (Hn : snd (process_lf uo maxi (rebind uo (nth f frames []))) = n) by congruence.
+  clear H. subst rows n. exists f. split; auto.
+  assert (Hin : In f (lf_idx_list (ds_frames uo frames))) by (eapply nth_error_In; eauto).
+  apply frame_idx_list_sound_l in Hin. destruct Hin as [fr [Hfr Hex]].
+  destruct (ds_frames_nth _ _ _ _ Hfr) as [-> Hlt]. split; auto.
+  set (fr0 := nth f frames []) in *.
+  rewrite process_lf_num_l, considered_rebind. cbv zeta. split; [reflexivity|].
+  split. { apply existsb_filter_pos. exact Hex. }
+  split.
+  - intros j lab Hj. unfold scale_rows. rewrite nth_error_map'.
+    rewrite process_lf_row_l.
+    + rewrite considered_rebind. fold fr0. rewrite Hj. reflexivity.
+    + rewrite process_lf_num_l, considered_rebind. apply nth_error_Some. fold fr0. congruence.
+  - intros j row Hj Hn. unfold scale_rows in Hn. rewrite nth_error_map' in Hn.
+    match type of Hn with option_map _ ?t = _ => destruct t as [r0|] eqn:E0 end;
+      simpl in Hn; [|discriminate].
+    inversion Hn; subst. rewrite all_missing_scale.
+    eapply process_lf_pad_l; [|exact E0]. rewrite process_lf_num_l, considered_rebind. exact Hj.
+Qed.
+
+Lemma single_sample_rows_l : forall fixedS uo s frames k rows n,
+  single_sample fixedS uo s frames k = Some (rows, n) ->
+  exists f, nth_error (lf_idx_list (ds_frames uo frames)) k = Some f /\ (f < length frames)%nat /\
+    let labs := filter nonempty (considered uo (nth f frames [])) in
+    n = length labs /\ (0 < n)%nat /\
+    (forall j lab, nth_error labs j = Some lab -> nth_error rows j = Some (map (scale_kp s) lab)) /\
+    (forall j row, (n <= j)%nat -> nth_error rows j = Some row -> all_missing row = true).
+Proof. intros fixedS uo s frames k rows n. apply frame_sample_m_rows_l. Qed.
+
+Lemma single_sample_defined_l : forall fixedS uo s frames k,
+  (k < length (lf_idx_list (ds_frames uo frames)))%nat <-> single_sample fixedS uo s frames k <> None.
+Proof.
+  intros. unfold single_sample, frame_sample_m.
+  destruct (nth_error (lf_idx_list (ds_frames uo frames)) k) eqn:E.
+  - split; [discriminate|]. intros _. apply nth_error_Some. congruence.
+  - split; [|congruence]. intro H. apply nth_error_None in E. lia.
+Qed.
+
+(* with max_instances = 1 there is no padding row at all: `instances` holds exactly the label rows *)
+Lemma single_sample_fixed_no_padding_l : forall uo s frames k rows n,
+  single_sample true uo s frames k = Some (rows, n) -> length rows = n.
+Proof.
+  intros uo s frames k rows n H. unfold single_sample, frame_sample_m, single_max_instances in H.
+  destruct (nth_error (lf_idx_list (ds_frames uo frames)) k) as [f|]; [|discriminate].
+  cbv zeta in H. inversion H; subst; clear H.
+  unfold scale_rows, process_lf. cbn [fst snd Nat.eqb]. rewrite map_length. reflexivity.
+Qed.
+
+(* a second SingleInstanceDataset over the same label objects: identical samples with the repair, whatever
+   the user filter did to the labels (max_instances is 1 either way) *)
+Lemma second_dataset_single_same_l : forall b uo s frames k,
+  single_sample true uo s (labels_after b uo frames) k = single_sample true uo s frames k.
+Proof.
+  intros. unfold single_sample, frame_sample_m, single_max_instances. rewrite ds_frames_after_l.
+  destruct (nth_error (lf_idx_list (ds_frames uo frames)) k) as [f|]; auto.
+  cbv zeta. rewrite nth_labels_after. reflexivity.
+Qed.
+
+(* the unrepaired variant pads a single-instance sample up to the labels' instance count *)
+Lemma single_sample_unfixed_pads_l : exists uo s frames k rows n,
+  single_sample false uo s frames k = Some (rows, n) /\ length rows <> n.
+Proof.
+  exists true, 1%Q, [[mklinst true [Some (1 # 1, 2 # 1)]; mklinst false [Some (9 # 1, 9 # 1)]]], 0%nat.
+  eexists. eexists. split; [vm_compute; reflexivity|]. simpl. discriminate.
+Qed.
